@@ -62,7 +62,7 @@ BUILT.update({
     "C04": (CONT + "frame theorems on the list spec (other types untouched, removed absent, replace keeps comment) and payload_read; + reference-dict oracle on real files, incl. block objects handed over again after in-place edits",
             "Proof over the model (frame conditions are list lemmas after the refinement); real files are parsed independently after every call and compared with a python reference of the history, plus read-back through get_block.",
             NOTE, "DESIGN.md §6 container"),
-    "C07": ("Lean 4 theorems: add/remove rejected => state unchanged for EVERY state and cause; replace/setters atomic on well-formed layouts (add cannot fail after the remove); continuation equivalence; + fault-injection correspondence (sha before/after, twin file; causes incl. dates that do not fit the on-disk field)",
+    "C07": ("Lean 4 theorems: add/remove rejected => state unchanged for EVERY state and cause; every refused call (add, remove, replace, setter) at every point of every history from ANY table with one block per type leaves the state unchanged (history_rejected_unchanged_any); replace/setters atomic on well-formed layouts (add cannot fail after the remove); continuation equivalence; + fault-injection correspondence (sha before/after, twin file; causes incl. dates that do not fit the on-disk field)",
             "Proof over the model; on the real code every rejection cause x reachable states x position of the failing element is exercised, with sha-256 before/after and a twin-file continuation.",
             NOTE, "DESIGN.md §6 container"),
     "C09": (CONT + "corollaries compactB(image)=true, file length formula, add grows / remove shrinks by exactly the size (both also on ANY table lying inside the file, no layout assumed: remove_shrinks_any, add_grows_any); + history correspondence with Lean's compactB on the real bytes",
